@@ -59,6 +59,58 @@ CHECKS = {
          "caller buffers and thread-allocated blocks are thread-private; workloads with >300 scheduling points have their preemption positions "
          "thinned (reported as caps, exhaustive=false).",
          "DESIGN.md 3/C19"),
+ "C01": ("exploration",
+         "bounded exhaustive enumeration of AEAD configurations x a received-tuple mutation alphabet, verdicts computed from the received values by pure-Python reference modes",
+         "For every AEAD mode (GCM, CCM, EAX, SIV, OCB, ChaCha20/XChaCha20-Poly1305, KW, KWP) the grid of key sizes x nonce lengths x tag lengths x AAD/message "
+         "lengths is enumerated completely (2.4 k configurations quick, 29 k thorough); each sealed message is offered back as the authentic tuple and as "
+         "every single-bit flip of tag/ciphertext/AAD/nonce, every tag truncation and extension, other-length tags, block swaps, boundary shifts, 20 "
+         "cross-message splices, KW/KWP forgeries built with the reference W function, through decrypt_and_verify and the update/decrypt/verify/hexverify "
+         "paths. Accept iff the reference tag for the RECEIVED values equals the presented tag; reject must be ValueError. 1 M (quick) / 14 M (thorough) tuples.",
+         "Trusted: mc/ref/modes.py, aes.py, des.py, chacha.py (self-tested on published vectors). Values from a 4-element alphabet; BLAKE2s comparison-MAC "
+         "collisions out of scope.", "DESIGN.md 3/C01"),
+ "C02": ("exploration",
+         "bounded exhaustive enumeration of cipher x mode x parameter shapes against pure-Python reference implementations, with a reference peer decrypting",
+         "Every legal key length of every cipher, every mode the dispatch table allows, all IV/nonce lengths, every CFB segment size, every CTR/Counter layout, "
+         "every message length 0..8 blocks+1 (plus multi-kilobyte sizes), all 256 OCB last-nonce bytes, CCM header boundaries, crafted GCM/EAX counter-wrap "
+         "nonces, KW/KWP payload sizes, library-chosen IV/nonce via an entropy tape with a reference peer that decrypts from cipher.iv/nonce alone, 3DES parity "
+         "and degenerate keys over all 256 byte values. 1.26 M (quick) / 5.6 M (thorough) cases, exhaustive within the grids.",
+         "Trusted: mc/ref/{aes,des,blowfish,rc4,chacha,modes}.py and the RC2 model in mc/props/_c02_rc2.py; CAST-128 only against RFC 2144 vectors + the "
+         "library's own block function under the reference modes.", "DESIGN.md 3/C02"),
+ "C03": ("exploration",
+         "bounded exhaustive enumeration of message/key/customisation/output lengths for every hash, XOF and MAC against hashlib and pure-Python references; MAC verify over a candidate-tag alphabet",
+         "Every message length 0..3 blocks+1 (sponges 0..2 rates+1) for every hash, all SHAKE/cSHAKE/TurboSHAKE output and customisation boundary lengths, "
+         "KangarooTwelve around every 8192-byte chunk boundary incl. long customisations and all feeding patterns, HMAC over 17 hashes with every key length "
+         "0..block+2, CMAC over six ciphers, KMAC full product of key/mac/customisation lengths, Poly1305 limb patterns, the complete BLAKE2 grid "
+         "(digest size x key length x message length: 1.2 M digests), and verify()/hexverify() on 27 MACs over authentic/truncated/extended/bit-flipped tags.",
+         "Trusted: CPython hashlib/hmac (OpenSSL/HACL*), mc/ref/{keccak,md,modes,chacha}.py. 2^64-bit length carries not reachable.", "DESIGN.md 3/C03"),
+ "C07": ("exploration",
+         "bounded exhaustive enumeration of encoded-message patterns through the C decoders and end-to-end through decrypt(), against RFC 8017 decoding predicates",
+         "The C decoders are driven on every EM of length 11..15 (quick) / 11..18 (thorough) with every header and every subset of zero positions x expected "
+         "lengths x sentinel lengths (6 M / 84 M calls), OAEP data blocks exhaustively over small alphabets with every Y / lHash / separator defect; the same "
+         "patterns are then raw-RSA-encrypted so that PKCS1_v1_5.decrypt / PKCS1_OAEP.decrypt see exactly that EM (tiny keys from 88 to 512 bits plus 1024/1025-bit "
+         "fixtures), every message length 0..max round-tripped with entropy tapes, wrong-length and >= n ciphertexts. Oracle: plaintext / ValueError / exactly the "
+         "caller's sentinel as RFC 8017 7.1.2 and 7.2.2 define.",
+         "Trusted: mc/ref/rsa.py, mc/ref/nt.py. Blinding randomness is pinned through the Crypto.Math._IntegerBase.Random seam.", "DESIGN.md 3/C07"),
+ "C09": ("exploration",
+         "bounded exhaustive enumeration of segmentations x buffer types x output styles per stateful class, differential against the one-shot call and a reference",
+         "128 class configurations (66 block-cipher/mode, 6 stream, 13 AEAD, 23 hash, 12 MAC, 8 XOF) plus SIV and TupleHash as vectors: all compositions "
+         "into <=3 parts with cuts in the boundary set of the class's cache size, all 2^(L-1) compositions for L<=10/12, joint AAD x message splits, crossed with "
+         "bytes/bytearray/read-only and writable memoryview/odd-offset slices and returned/output=/aliased output; after every call caller buffers must be "
+         "bit-identical. 1.5 M (quick) / 8 M (thorough) cases; every case's trace is checked to really differ from the oracle's.",
+         "Trusted: the one-shot computation (itself compared with mc/ref/* once per class). Overlapping non-identical buffers are not documented and not exercised.",
+         "DESIGN.md 3/C09"),
+ "C12": ("exploration",
+         "bounded exhaustive enumeration of KDF parameter grids against hashlib and pure-Python references",
+         "PBKDF2 over 22 PRF choices (C fast path, generic path, custom PRFs) with every dkLen 1..3*hLen+1 and 6x6 password/salt boundary lengths, PBKDF1, HKDF "
+         "(all lengths, 255*hLen boundaries, num_keys), scrypt (N x r x p x key_len grid, 2 k refusal probes), bcrypt (every password length 0..72 in thorough, "
+         "bcrypt_check on all password x hash pairs, mutated hashes), SP 800-108 counter mode, S2V over all vectors of 0..4 components. Two independent oracles "
+         "where hashlib allows.", "Trusted: hashlib, mc/ref/{kdf,blowfish,modes,aes}.py.", "DESIGN.md 3/C12"),
+ "C16": ("exploration",
+         "bounded exhaustive differential enumeration across interchangeable implementations (AES-NI on/off, CLMUL on/off, three integer back-ends, three whole-library subprocess configurations)",
+         "AES use_aesni True/False over 16 mode variants x key sizes x every length 0..273 x buffer offsets 0..3; GCM use_clmul True/False over nonce x AAD x message "
+         "0..130 full cross product; IntegerGMP/IntegerCustom/IntegerNative on all ordered pairs of a 55/95-value alphabet x 58 operations (value, type, exception "
+         "class); byte-identical transcripts of ~1000-1700 library operations from three subprocesses (GMP, custom, native). No reference needed: pairwise equality.",
+         "Trusted: nothing but equality; needs a CPU with AES-NI and CLMUL (checked at run time, otherwise the part is reported as not covered).", "DESIGN.md 3/C16"),
 }
 NOT_YET = "check not built yet (work in progress in this session; see DESIGN.md section 3 for the planned bounded-exhaustive check)"
 man = {
